@@ -99,6 +99,9 @@ type State struct {
 	PrevProposer string
 	HasProposer  bool
 	P            Params
+	// Other: per address the coins held in other denominations, as text (read-only; the model only
+	// needs it to refuse a fee the payer cannot pay)
+	Other map[string]string
 	// bookkeeping produced by a Spec* call
 	Burned     *big.Int // tokens the statements require to be burned by this call
 	Minted     *big.Int
@@ -108,7 +111,7 @@ type State struct {
 
 func (s *State) Clone() *State {
 	c := &State{Bal: map[string]*big.Int{}, Supply: new(big.Int).Set(s.Supply), Vals: map[string]*Val{},
-		Awards: map[string]*big.Int{}, Burns: map[string]*big.Int{}, PrevProposer: s.PrevProposer, HasProposer: s.HasProposer, P: s.P,
+		Awards: map[string]*big.Int{}, Burns: map[string]*big.Int{}, PrevProposer: s.PrevProposer, HasProposer: s.HasProposer, P: s.P, Other: s.Other,
 		Burned: new(big.Int), Minted: new(big.Int), MustReturn: true}
 	for k, v := range s.Bal {
 		c.Bal[k] = new(big.Int).Set(v)
